@@ -44,7 +44,7 @@ CHECKS = {
                 'every enumerated source/grid (incl. duplicated and mirror-image models: exact ties; certain limits: Big chi^2).  Replay compares the whole FitInfo: every model exactly once, '
                 'observed chi^2 non-decreasing, and per row (matched by model name) model_id, A_V, scale, chi^2 and every predicted flux.',
         'ref': 'DESIGN.md section 6 C04',
-        'note': _NOTE + ' Tie order is free.  Infinite chi^2 from remove_resolved is not produced through the fitter here.',
+        'note': _NOTE + ' Tie order is free.  Infinite chi^2 is produced by a small MC_Resolved instance (remove_resolved=True) replayed through the real Fitter: every row incl. predicted fluxes and the position of the inf rows is compared.',
         'technique': 'TLA+ spec + TLC; spec->code replay of whole FitInfo rows; trace validation (rank, ids, predicted fluxes)',
     },
     'C06': {
@@ -52,16 +52,16 @@ CHECKS = {
                 'Rebin.tla enumerates every filter (2..3 nodes quick / 2..4 thorough out of 6-8 lattice frequencies, responses {0,1,2}, zero and non-zero edges) x every SED grid (2..4 / 2..5 nodes: coarser, finer, partial, disjoint, '
                 'edge-coincident, last bin containing the last-but-one filter node) and TLC checks sum_i R_i = integral over the overlap, non-negativity, zero outside the filter, flat spectrum -> c for a normalised filter inside the grid, '
                 'and linearity.  Sampled behaviours are replayed into Filter.rebin with filter and grid each stored in increasing and decreasing frequency, filters read from two-column wavelength files in either row order, and '
-                'Filter.normalize; recorded random filters (2-60 samples, irregular spacing) and grids (2-80) are validated by Trace_Rebin.  convolve_model_dir end to end (flux and quadrature errors, both package formats) is replayed by the C07 check on the same spec.',
+                'Filter.normalize; recorded random filters (2-60 samples, irregular spacing) and grids (2-80) are validated by Trace_Rebin.  convolve_model_dir end to end (flux and quadrature errors, both package formats) is replayed by the Package.tla stage (shared with C07) inside this check: every model of a package has one of two frequency grids of equal length and equal end points, and one Filter object is re-used over grids.',
         'ref': 'DESIGN.md section 6 C06',
         'note': _NOTE + ' Integer frequency lattice in units of c/12um; SED grid nodes even so that bin edges are lattice points.',
         'technique': 'TLA+ spec (exact integrals) + TLC exhaustive theorems; spec->code replay in all storage orders and through filter files; trace validation',
     },
     'C07': {
-        'text': 'Package.tla: a package of 3 models (6 parameter-table orders x 6 directory-listing / cube orders x 2^3 stored spectral orders x per-file | cube x 1 | 2 apertures) convolved with 2 filters; the algorithm layer is the code\'s '
+        'text': 'Package.tla: a package of 3 models (each on one of two SED frequency grids; 6 parameter-table orders x 6 directory-listing / cube orders x 2^3 stored spectral orders x per-file | cube x 1 | 2 apertures) convolved with 2 filters; the algorithm layer is the code\'s '
                 '(rows in listing order, order_to_match re-ordering to the table; cube rows in cube order, refused when cube and table orders differ), expected fluxes and squared errors come from RebinOps exactly.  TLC checks RowsLabelledRight, '
                 'OrderFollowsTable, CubeRefusesMismatch, CellsDistinct on all 2304 packages.  Replay builds each sampled package for real (SED files via SED.write and as raw FITS per the docs, cube via SEDCube.write), runs convolve_model_dir with both '
-                'filters at once, reads every convolved file (row names/order, FILTWAV, apertures, flux and error per aperture to 2e-6) and fits a source with every variant, memmap on and off, requiring agreement between variants.',
+                'filters at once, reads every convolved file (row names/order, FILTWAV, apertures, flux and error per aperture to 2e-6) and fits a source with every variant, memmap on and off, requiring agreement between variants; a third of the packages are convolved in two calls with a fit and a listing in between.',
         'ref': 'DESIGN.md section 6 C07',
         'note': _NOTE + ' This check also decides the end-to-end half of C06 (flux = sum F R, errors in quadrature).',
         'technique': 'TLA+ spec (order_to_match permutation algebra + exact convolution) + TLC exhaustive; replay through convolve_model_dir on real packages of both formats',
@@ -90,7 +90,7 @@ CHECKS = {
                 'FileFaithful (one record per eligible line before the first short line, in order, = Keep(Fit(src), sel), predicted fluxes iff requested), FileGrowsOnly, PostPure and termination of the loop '
                 'exhaustively (pool of 6 sources, 4 models, files of <= 3 lines, all argument combinations, <= 2 later calls).  TLC -simulate behaviours (files of <= 6 lines, <= 3 later calls) carrying the expected file '
                 'and the expected listing of every later call are replayed through sedfitter.fit, FitInfoFile, write_parameters, write_parameter_ranges, extract_parameters: records compared NaN-aware with '
-                'Fitter.fit+keep, metadata compared, and after EVERY call all in-memory results and the file bytes re-projected.  Recorded random sessions (random worlds, <= 12 lines, <= 4 calls) are validated by Trace_FitSession '
+                'Fitter.fit+keep, metadata compared (filters, apertures, law tabulated in micron/nm/cm/Angstrom with units required equal), and after EVERY call all in-memory results and the file bytes re-projected.  Recorded random sessions (random worlds, <= 12 lines, <= 4 calls) are validated by Trace_FitSession '
                 'whose unlogged loop steps are composed silently.',
         'ref': 'DESIGN.md section 6 C10',
         'note': _NOTE + ' Runs that write no record are outside the property.  Parameter values inside listings are C09\'s subject; C10 compares names, n_data, n_fits, row counts.',
@@ -100,7 +100,7 @@ CHECKS = {
         'text': 'SpectralStore.tla models SED and cube objects and files as layouts of cell tokens <<model, aperture, wavelength rank>> along a spectral axis of ranks; writers (SED.write sorts by frequency, a cube is stored as given), '
                 'readers (reverse everything together when the requested order differs) and get_sed are permutations.  TLC checks on EVERY history of 5 operations (create asc|desc x SED|cube x with/without uncertainties, write, read nu|wav, get_sed) '
                 'that no cell is ever separated from its wavelength/aperture/model (ReadBack, ModelIdentity), that the axis is monotone and that the other order only reverses.  Every history is replayed on real files with per-cell distinct values, '
-                'random concrete sizes (1-6 models, none/1-5 apertures, 2-40 wavelengths), flux unit in {mJy, Jy, erg/cm2/s, erg/s}, memmap on/off; plus ConvolvedFluxes.write/read round trips.',
+                'random concrete sizes (1-6 models with deliberately unsorted names, none/1-5 apertures, 2-40 wavelengths), flux unit in {mJy, Jy, erg/cm2/s, erg/s}, memmap on/off; plus ConvolvedFluxes.write/read round trips.',
         'ref': 'DESIGN.md section 6 C12',
         'note': _NOTE + ' The spec decides which cell goes where; value fidelity (dtype, the nu*F_nu round trip, 1e-9) is enforced by the harness on the replayed cells only.',
         'technique': 'TLA+ spec of layouts/permutations + TLC exhaustive over all histories; every history replayed on real FITS files',
